@@ -469,8 +469,12 @@ impl<'a> Tr<'a> {
                             Ty::Param(name)
                         } else if self.reg.structs.contains_key(&name) || self.reg.enums.contains_key(&name) {
                             {
-                                let explicit: Vec<Ty> = targs.iter().map(|a| self.conv_ty(a)).collect();
                                 let n_params = self.adt_type_params(&name).len();
+                                // `ArrayConsumer<U, N>`: a const argument that is a plain name parses as a type; the type
+                                // arguments come first
+                                let n_consts = self.adt_const_params(&name);
+                                let targs: Vec<&syn::Type> = if targs.len() == n_params + n_consts { targs[..n_params].to_vec() } else { targs };
+                                let explicit: Vec<Ty> = targs.iter().map(|a| self.conv_ty(a)).collect();
                                 let args = if !explicit.is_empty() && explicit.len() == n_params { explicit } else { self.default_adt_args(&name) };
                                 Ty::Adt(name, args)
                             }
@@ -530,6 +534,12 @@ impl<'a> Tr<'a> {
             }
             None => Vec::new(),
         }
+    }
+
+    /// number of const parameters of a struct / enum
+    pub fn adt_const_params(&self, name: &str) -> usize {
+        let gens: Option<&syn::Generics> = self.idx.find_struct(name, &self.cur.module).map(|s| &s.generics).or_else(|| self.idx.find_enum(name, &self.cur.module).map(|e| &e.generics));
+        gens.map(|g| g.const_params().count()).unwrap_or(0)
     }
 
     /// type arguments of an ADT named without explicit arguments: the same-named parameters in scope, else unknown
